@@ -304,7 +304,7 @@ def _run_misc(case):
                                              (2, 0, 4, 1, 3),
                                              (1, 3, 0, 2, 4)])))
         elif what == 'scale':
-            arg = (ctx.choice('k', [3.5, 1e-3, 250.0]),
+            arg = (ctx.choice('k', [3.5, 1e-3, 250.0, 1e-9]),
                    ctx.choice('grouping', [0, 'grouper', 'none']))
         elif what == 'iterative':
             arg = (ctx.choice('grouping', [0, 1, 'none']),
@@ -324,7 +324,12 @@ def _run_misc(case):
             ctx.stats.unsat += 1
         else:
             ctx.stats.sat += 1
-            ctx.find(f'psf:{what}', f'{arg}: {msg}', ctx.witness(),
+            key = f'psf:{what}'
+            if what == 'scale':
+                # one key per scale factor and grouping (known findings are
+                # listed per input, see known_findings.txt)
+                key = f'psf:scale:k={arg[0]:g}:grouping={arg[1]}'
+            ctx.find(key, f'{arg}: {msg}', ctx.witness(),
                      params=dict(kind='misc', what=what, arg=arg))
         if len(samples) < 2:
             samples.append(dict(what=what, arg=arg))
